@@ -277,8 +277,10 @@ fn c06_case(shard: &mut Shard, seed: u64, index: u64) {
     let counters = *rng.pick(&[16u64, 64, 1024]);
     let applied_base = r.applied.load(Ordering::SeqCst);
     r.weight_last.store(0, Ordering::SeqCst);
-    let policy = VerifAdmissionPolicy::new(counters, 16, 2, max_weight);
-    let n_existing = rng.range(0, 9);
+    // `capacity` is a sizing hint for the maps, not a bound on the number of keys: decisions that need more evictions than it are drawn too
+    let capacity = *rng.pick(&[1usize, 2, 4, 16]);
+    let policy = VerifAdmissionPolicy::new(counters, capacity, 2, max_weight);
+    let n_existing = if capacity < 16 && rng.chance(1, 2) { rng.range(5, 9) } else { rng.range(0, 9) };
     let constant_hash = rng.chance(1, 6);
     let hash_of = |key: u64| if constant_hash { 42 } else { key.wrapping_mul(0x9E37_79B9_7F4A_7C15) ^ seed };
     let mut next_id = 1u64;
@@ -352,6 +354,7 @@ fn c06_case(shard: &mut Shard, seed: u64, index: u64) {
         let mut evicted: Vec<u64> = Vec::new();
         let mut gone: BTreeSet<u64> = BTreeSet::new();
         let mut decided_reject = false;
+        let mut ran_dry = false;
         let steps: Vec<&Event> = events.iter().map(|e| &e.event).filter(|e| matches!(e, Event::AdmissionStep { .. })).collect();
         if steps.is_empty() { bad(shard, "no-admission-step-recorded", "the eviction path left no step event".into()); }
         for (n, step) in steps.iter().enumerate() {
@@ -368,6 +371,7 @@ fn c06_case(shard: &mut Shard, seed: u64, index: u64) {
                 match victim {
                     None => {
                         if !sample.is_empty() { bad(shard, "no-victim-from-a-non-empty-sample", format!("step {}: sample {:?} but no victim was taken", n, sample)); }
+                        ran_dry = true;
                         break;
                     }
                     Some((victim_id, _, _)) => {
@@ -389,6 +393,10 @@ fn c06_case(shard: &mut Shard, seed: u64, index: u64) {
         }
         let expected_keys: Vec<u64> = evicted.iter().filter_map(|id| key_of.get(id).copied()).collect();
         if hooked != expected_keys { bad(shard, "delete-hook-calls-differ-from-victims", format!("victims (by key) {:?} but the delete hook was called for {:?}", expected_keys, hooked)); }
+        // evicting stops for one of three reasons only: enough space, a victim hotter than the incoming key, or nothing left to sample
+        if !decided_reject && !ran_dry && space < weight && !steps.is_empty() && charged_before.len() > gone.len() && status != CommandStatus::Accepted {
+            bad(shard, "eviction-stopped-although-victims-remained", format!("after evicting {:?} the free space is {} for weight {}; {} charged keys remain, none was compared with the incoming key, yet the put was answered {}", evicted, space, weight, charged_before.len() - gone.len(), status_name(&status)));
+        }
         let expect_accept = !decided_reject && space >= weight;
         if expect_accept != (status == CommandStatus::Accepted) {
             bad(shard, "outcome-differs-from-resulting-space", format!("after evicting {:?} the free space is {} for weight {}, yet the put was answered {}", evicted, space, weight, status_name(&status)));
